@@ -62,6 +62,30 @@ type Options struct {
 	formatOptions    map[string]interface{}
 }
 
+// clone returns a copy of the options that shares no mutable state with o.
+func (o *Options) clone() *Options {
+	c := &Options{
+		Format:        o.Format,
+		formatOptions: map[string]interface{}{},
+	}
+	if o.RenderOptions != nil {
+		ro := *o.RenderOptions
+		c.RenderOptions = &ro
+	}
+	if o.SerializeOptions != nil {
+		so := *o.SerializeOptions
+		c.SerializeOptions = &so
+	}
+	if o.StoreOptions != nil {
+		sto := *o.StoreOptions
+		c.StoreOptions = &sto
+	}
+	for k, v := range o.formatOptions {
+		c.formatOptions[k] = v
+	}
+	return c
+}
+
 // argToOptsKeyVal returns a key value to access the options dictionary by using
 // key as a string or its type if its a serializer driver.
 func argToOptsKeyVal(key interface{}) string {
